@@ -191,6 +191,7 @@ func c12Scenarios(tier mc.Tier) []mc.Scenario {
 		}
 	}
 	// a certificate whose distribution points are [ldap, http] and one with a single https point: the documented shapes still hold
+	out = append(out, mc.Scenario{Name: "C12-long-chains", Bound: -1, Expect: 4 * 4 * 3, Body: c12LongChains, Params: map[string]string{"lengths": "9, 10, 12, 17", "shapes": "all with responder / none with sources / first eight without / alternating", "watchdog": "60s"}})
 	out = append(out, mc.Scenario{Name: "C12-repeated-distribution-point", Bound: -1, Expect: 9, Body: c12RepeatedPoint, Params: map[string]string{"chain": "2", "points": "[u, u, v]", "checksPerEntry": "2"}})
 	out = append(out, mc.Scenario{Name: "C12-unusual-url-spellings", Bound: -1, Expect: 4 * 4 * 3 * 3, Body: c12Spellings, Params: map[string]string{"chain": "2", "spellings": "HTTP:// responder, responder path with a space, HtTp:// point, point with :80"}})
 	out = append(out, mc.Scenario{Name: "C12-non-http-distribution-points", Bound: 1, Body: c12NonHTTP, Params: map[string]string{"chain": "3", "shapes": "[ldap,http] and [https]"}})
@@ -631,6 +632,95 @@ func c12RepeatedPoint(c *mc.Ctx) {
 					return
 				}
 			}
+		}
+	}
+}
+
+var (
+	c12LongMu sync.Mutex
+	c12LongW  = map[string]*revWorld{}
+)
+
+// c12LongChains: chains of many certificates (9, 10, 12, 17), of which none / all / only the ones after the first eight name a
+// responder. Nothing in the statement depends on the length: one result per certificate, in order, each naming its own URLs.
+// Every call runs under the watchdog (a check that never returns is reported, not waited for).
+func c12LongChains(c *mc.Ctx) {
+	n := []int{9, 10, 12, 17}[c.ChooseFree("length", 4)]
+	shape := []string{"all-with-responder", "none-with-sources", "first-eight-without-sources", "alternating"}[c.ChooseFree("shape", 4)]
+	entry := []string{"validatecontext", "validate", "checkstatus"}[c.ChooseFree("entry", 3)]
+	key := fmt.Sprintf("%d/%s", n, shape)
+	c12LongMu.Lock()
+	w, ok := c12LongW[key]
+	if !ok {
+		o, cc := make([]int, n-1), make([]int, n-1)
+		for i := range o {
+			switch shape {
+			case "all-with-responder":
+				o[i] = 1
+			case "first-eight-without-sources":
+				if i >= 8 {
+					o[i] = 1
+				}
+			case "alternating":
+				o[i] = i % 2
+			}
+		}
+		w = newRevWorld(n, o, cc, purposeCS)
+		c12LongW[key] = w
+	}
+	c12LongMu.Unlock()
+	tr := &netsim.Transport{}
+	tr.Handler = func(r *netsim.Request, raw *http.Request) netsim.Answer {
+		src, ok := parseSource(r.URL)
+		if !ok || src.kind != "ocsp" {
+			return netsim.Answer{Status: 404}
+		}
+		return w.serveOCSP(src, ocspByName("good/issuer"))
+	}
+	chain := pki.X509s(w.certs)
+	var res []*result.CertRevocationResult
+	var err error
+	pan, hung, dump := guarded(func() {
+		var p any
+		res, err, p = runEntry(entry, purposeCS, tr, chain)
+		if p != nil {
+			panic(p)
+		}
+	})
+	c.Statef("long chain %d %s", n, shape)
+	if pan != nil {
+		c.Fail("C12 "+entry+" panic on a long chain", "length %d shape %s: %v", n, shape, pan)
+		return
+	}
+	if hung {
+		c.Outcome("long-chain:hang")
+		c.NoRerun()
+		c.Fail("C12 "+entry+" no answer for a long chain", "length %d shape %s: the check did not return within %v\n%s", n, shape, c09Watchdog, dump)
+		return
+	}
+	if err != nil {
+		c.Fail("C12 "+entry+" valid long chain rejected", "length %d shape %s: %v", n, shape, err)
+		return
+	}
+	c.Outcome("long-chain:answered")
+	en := "validate"
+	if entry == "checkstatus" {
+		en = "checkstatus"
+	}
+	for _, why := range shapeViolations(chain, res, en) {
+		c.Fail("C12 "+entry+" result-shape (long chain): "+stripDigits(why), "length %d shape %s: %s", n, shape, why)
+	}
+	if len(res) != n {
+		return
+	}
+	for i := 0; i < n-1; i++ {
+		want := result.ResultNonRevokable
+		if len(w.certs[i].X.OCSPServer) > 0 {
+			want = result.ResultOK
+		}
+		if res[i] != nil && res[i].Result != want {
+			c.Fail("C12 "+entry+" positional result on a long chain", "length %d shape %s position %d: %s, want %s", n, shape, i, res[i].Result, want)
+			return
 		}
 	}
 }
